@@ -278,7 +278,7 @@ fn cases(tier: Tier) -> Vec<Case> {
     for &mb in mbs4 {
         for a in seqs(&reps, 2) {
             for b in seqs(&reps, 2) {
-                v.push(make_case(&[a.clone(), b], mb, 0, if tier == Tier::Quick { Some(3) } else { None }));
+                v.push(make_case(&[a.clone(), b], mb, 0, None));
             }
         }
     }
